@@ -370,15 +370,23 @@ end
 def deepGet (doc : J) (path : List String) : J :=
   path.foldl (fun d k => if d.truthy then nextLevel k d else .null) doc
 
+/-- `name_is_taken` of `get_processed_input` (since /repo f476845): the field's own name is the
+    string key of *another* entry of the resolved mapper -/
+def taken (M : MDict) (f : String) : Bool :=
+  M.any fun p => decide (p.1 ≠ .fld f) && (match p.2 with | .key s => s == f | _ => false)
+
 /-- `get_processed_input` for field `f` under the resolved mapper `M`: the value at the mapped key
-    (a dotted path), falling back to the unmapped field name unless `use_strict_mapping` -/
+    (a dotted path), falling back to the unmapped field name unless `use_strict_mapping` or that name
+    is another field's key; a `DoNotSerialize` field (since /repo e74486a) is read under its own name
+    unless that name is another field's key -/
 def procInput (S : StrFns) (M : MDict) (strict : Bool) (kvs : List (String × J)) (f : String) : DR J :=
   match lookupR (.fld f) M with
   | none => .ok ((lookupR f kvs).getD .null)
   | some (.key s) =>
     let val := deepGet (.obj kvs) (S.split s)
-    .ok (if !val.isNull || strict then val else (lookupR f kvs).getD .null)
-  | some _ => .error .typeErr
+    .ok (if !val.isNull || strict || taken M f then val else (lookupR f kvs).getD .null)
+  | some .dns => .ok (if taken M f then .null else (lookupR f kvs).getD .null)
+  | some (.sub _) => .error .typeErr
 
 /-- the override handed to a nested class:
     `mapper.get(f"{mapped_key}._mapper", mapper.get(f"{key}._mapper"))` -/
